@@ -83,7 +83,7 @@ def _is_list(env: dict, name: str) -> bool:
 def is_strish(e: ast.expr, env: dict[str, list]) -> bool:
     if isinstance(e, ast.Constant) and isinstance(e.value, str):
         return True
-    if isinstance(e, ast.Call) and isinstance(e.func, ast.Attribute) and e.func.attr == "join" and isinstance(e.func.value, ast.Constant) and e.func.value.value == "":
+    if isinstance(e, ast.Call) and isinstance(e.func, ast.Attribute) and e.func.attr == "join" and isinstance(e.func.value, ast.Constant) and e.func.value.value in ("", b""):
         return True
     if isinstance(e, ast.JoinedStr):
         return True
@@ -167,7 +167,7 @@ def _eval_str(e: ast.expr, env: dict[str, list], alias: dict[str, ast.expr]) -> 
     if isinstance(e, ast.BinOp) and isinstance(e.op, ast.Add):
         return eval_str(e.left, env, alias) + eval_str(e.right, env, alias)
     if isinstance(e, ast.Call) and isinstance(e.func, ast.Attribute) and e.func.attr == "join" and isinstance(e.func.value, ast.Constant) \
-            and e.func.value.value == "" and len(e.args) == 1 and not e.keywords:
+            and e.func.value.value in ("", b"") and len(e.args) == 1 and not e.keywords:
         a = e.args[0]
         if isinstance(a, (ast.GeneratorExp, ast.ListComp)) and len(a.generators) == 1 and not a.generators[0].ifs:
             g = a.generators[0]
@@ -223,9 +223,9 @@ def contributions(func: Func) -> list[Sink]:
             src = a.func.value
         else:
             src = a
-        if isinstance(src, ast.Name) and src.id in env:
+        if isinstance(src, ast.Name) and src.id in env and not _is_list(env, src.id):
             return list(env[src.id])
-        return eval_str(src, env, alias)
+        return eval_str(strip_encode(src), env, alias)
 
     def setattr_target(st: ast.stmt) -> tuple[str, ast.expr] | None:
         for n in walk_local(st):
@@ -237,7 +237,7 @@ def contributions(func: Func) -> list[Sink]:
     hashers: dict[str, ast.Call] = {}
     # locals that are joined into one text somewhere in the function
     joined = {c.args[0].id for c in walk_local(fn) if isinstance(c, ast.Call) and isinstance(c.func, ast.Attribute) and c.func.attr == "join"
-              and isinstance(c.func.value, ast.Constant) and c.func.value.value == "" and len(c.args) == 1 and isinstance(c.args[0], ast.Name)}
+              and isinstance(c.func.value, ast.Constant) and c.func.value.value in ("", b"") and len(c.args) == 1 and isinstance(c.args[0], ast.Name)}
 
     def strip_encode(a: ast.expr) -> ast.expr:
         if isinstance(a, ast.Call) and isinstance(a.func, ast.Attribute) and a.func.attr == "encode":
@@ -305,11 +305,16 @@ def contributions(func: Func) -> list[Sink]:
                 segs, hc2, algo, st0 = pending[sa[1].id]
                 sinks.append(Sink(sa[0], segs, hc2, algo, st0))
                 continue
+            if sa is not None and isinstance(sa[1], ast.Call) and isinstance(sa[1].func, ast.Attribute) and sa[1].func.attr == "hexdigest" \
+                    and isinstance(sa[1].func.value, ast.Name) and sa[1].func.value.id in pending:
+                segs, hc2, algo, st0 = pending[sa[1].func.value.id]  # h = hashlib.x(data) ... setattr(self, attr, h.hexdigest())
+                sinks.append(Sink(sa[0], segs, hc2, algo, st0))
+                continue
             if isinstance(st, ast.Assign) and len(st.targets) == 1 and isinstance(st.targets[0], ast.Name) and isinstance(st.value, ast.List) \
                     and (not st.value.elts or st.targets[0].id in joined) and not any(isinstance(x, ast.Starred) for x in st.value.elts):
                 pieces: list = []  # a list of text pieces (joined later), possibly with first pieces given in the literal
                 for x in st.value.elts:
-                    pieces += eval_str(x, env, alias)
+                    pieces += eval_str(strip_encode(x), env, alias)
                 env[st.targets[0].id] = pieces
                 lists.add(st.targets[0].id)
                 continue
@@ -326,7 +331,7 @@ def contributions(func: Func) -> list[Sink]:
             if isinstance(st, ast.Expr) and isinstance(st.value, ast.Call) and isinstance(st.value.func, ast.Attribute) and st.value.func.attr == "append" \
                     and isinstance(st.value.func.value, ast.Name) and st.value.func.value.id in lists and len(st.value.args) == 1:
                 nm = st.value.func.value.id
-                env[nm] = env[nm] + eval_str(st.value.args[0], env, alias)
+                env[nm] = env[nm] + eval_str(strip_encode(st.value.args[0]), env, alias)
                 continue
             if isinstance(st, ast.Assign) and len(st.targets) == 1 and isinstance(st.targets[0], ast.Name):
                 name = st.targets[0].id
